@@ -234,7 +234,8 @@ impl CoverageFormat2<'_> {
             .ok()
             .map(|idx| {
                 let rec = &self.range_records()[idx];
-                rec.start_coverage_index() + gid.to_u16() - rec.start_glyph_id().to_u16()
+                rec.start_coverage_index()
+                    .wrapping_add(gid.to_u16().wrapping_sub(rec.start_glyph_id().to_u16()))
             })
     }
 
